@@ -45,6 +45,22 @@ def gen_value(rng) -> int:
     return tok(rng.uniform(-1, 1) * 10.0 ** rng.randint(-300, 300))
 
 
+def gen_vals(rng, r, c):
+    """r*c value tokens; sometimes a whole edge row/column (or an inner one) is NaN, as in NaN-masked images"""
+    vals = [gen_value(rng) for _ in range(r * c)]
+    if rng.random() < 0.2:
+        for _ in range(rng.choice([1, 1, 2])):
+            if rng.random() < 0.5:
+                j = rng.choice([0, c - 1, rng.randrange(c)])
+                for i in range(r):
+                    vals[i * c + j] = NAN
+            else:
+                i = rng.choice([0, r - 1, rng.randrange(r)])
+                for j in range(c):
+                    vals[i * c + j] = NAN
+    return vals
+
+
 def gen_shape2(rng):
     k = rng.random()
     if k < 0.08:
@@ -196,12 +212,12 @@ class C16(Prop):
             header = None
             if rng.random() < 0.15:
                 header = "".join(rng.choice("abc XYZ,;#01") for _ in range(rng.randint(1, 8)))
-            return {"kind": "text", "rows": r, "cols": c, "vals": [gen_value(rng) for _ in range(r * c)], "header": header}
+            return {"kind": "text", "rows": r, "cols": c, "vals": gen_vals(rng, r, c), "header": header}
         if k < 0.60:
             r, c = gen_shape2(rng)
             style = rng.choice([",", ";", "\t", "mixed", "mixed"])
             seps = [[rng.choice(DELIMS) if style == "mixed" else style for _ in range(c - 1)] for _ in range(r)]
-            return {"kind": "delims", "rows": r, "cols": c, "vals": [gen_value(rng) for _ in range(r * c)], "seps": seps}
+            return {"kind": "delims", "rows": r, "cols": c, "vals": gen_vals(rng, r, c), "seps": seps}
         # vtk
         r, c = gen_shape2(rng)
         shape = [r, c] if rng.random() < 0.45 else [r, c, rng.choice([1, 1, 2, 3, 4])]
